@@ -74,6 +74,13 @@ class Scene(object):
     """
 
     def __init__(self, adapter, nr, placement, cw, ch):
+        # placement may carry options: 'tl:ws' = WINDOW SCREEN (translated logical coordinates),
+        # 'tl:wc' = WINDOW (translated, y upwards), ':draw' = painted through DRAW "BMx,y Pf,b"
+        self.full_placement = placement
+        opts = placement.split(':')[1:]
+        placement = placement.split(':')[0]
+        self.window = 'ws' if 'ws' in opts else ('wc' if 'wc' in opts else None)
+        self.form = 'draw' if 'draw' in opts else 'paint'
         m = _mode_tuple(adapter, nr)
         g = self.g = G.Gfx(adapter, nr)
         if g.mode.name != m[2]:
@@ -109,8 +116,12 @@ class Scene(object):
             raise CheckError('unknown placement')
         self.base = [bytes(r) for r in base]
         self.tmpl = list(self.base)
+        if self.window:
+            if placement not in ('tl', 'br'):
+                raise CheckError('WINDOW options are used without a viewport only')
+            g.must(b'WINDOW %s(100,100)-(%d,%d)' % (b'SCREEN ' if self.window == 'ws' else b'', 100 + W - 1, 100 + Hh - 1))
         g.poke(0, self.tmpl)
-        self.tag = '%s/%d/%s' % (adapter, nr, placement)
+        self.tag = '%s/%d/%s' % (adapter, nr, self.full_placement)
 
     def lay(self, cells):
         """cells: list of ch rows of cw values -> installs the picture."""
@@ -127,7 +138,18 @@ class Scene(object):
         """PAINT at canvas coordinates (sx,sy) (may lie outside the canvas); apply the oracle."""
         g = self.g
         ax, ay = self.wx + sx, self.wy + sy          # absolute seed
-        stmt = b'PAINT (%d,%d),%d,%d' % (ax - self.ox, ay - self.oy, fill, border)
+        lx, ly = ax - self.ox, ay - self.oy
+        if self.form == 'draw':
+            # DRAW moves in physical (viewport-relative) pixels whatever WINDOW says
+            stmt = b'DRAW "BM%d,%d P%d,%d"' % (lx, ly, fill, border)
+            if lx < 0 or ly < 0:
+                stmt = b'DRAW "BM=%d;,=%d; P%d,%d"' % (lx, ly, fill, border)
+        else:
+            if self.window == 'ws':
+                lx, ly = lx + 100, ly + 100
+            elif self.window == 'wc':
+                lx, ly = lx + 100, 100 + (g.h - 1 - ly)
+            stmt = b'PAINT (%d,%d),%d,%d' % (lx, ly, fill, border)
         case = dict(case, seed=[sx, sy], fill=fill, border=border, stmt=stmt)
         r = G.run_timed(g.s, stmt, 30)
         part.n += 1
@@ -431,7 +453,21 @@ def work_shapes(shard):
 
 # ---------------------------------------------------------------------------
 
+SPELLINGS = ['tl:ws', 'tl:wc', 'tl:draw', 'tl:ws:draw', 'tl:wc:draw', 'view:draw', 'viewrel:draw', 'br:ws', 'br:wc:draw']
+
+
 def legs(ctx):
+    out = _legs(ctx)
+    modes = [('cga', 1)] if ctx.quick else [('cga', 1), ('vga', 7), ('tandy', 6)]
+    out.append(Leg('spelling', [(a, n, p, 3, lo, lo + 64, False) for (a, n) in modes for p in SPELLINGS for lo in range(0, 512, 64)],
+                   work_grid, exhaustive=True,
+                   bound='all 512 border bitmaps of a 3x3 window x all 9 seeds x 2 fills, painted under WINDOW SCREEN / WINDOW '
+                         '(translated logical coordinates) and through DRAW "BMx,y Pf,b" with and without a window or viewport: '
+                         '%d spellings x %d modes' % (len(SPELLINGS), len(modes))))
+    return out
+
+
+def _legs(ctx):
     out = []
     q = ctx.quick
     shape_names = [n for n, _ in _shape_list(24, 16)]
